@@ -76,8 +76,8 @@ fn str_base<'a>(b: &'a Backing, base: &str, v_str: &'a Value<'a>, v_serde: &'a V
         "tostr_string" => (b.string.to_str(), Some(b.string.as_ptr())),
         "tostr_box" => (b.boxed.to_str(), Some(b.boxed.as_ptr())),
         "tostr_arc" => (b.arc.to_str(), Some(b.arc.as_ptr())),
-        "from_value" => (v_str.by_ref().cast::<Str>().unwrap_or_else(|| tool_error("a string value does not cast to Str")), Some(b.string.as_ptr())),
-        "from_value_serde" => (v_serde.by_ref().cast::<Str>().unwrap_or_else(|| tool_error("a serde string value does not cast to Str")), None),
+        "from_value" => (v_str.by_ref().cast::<Str>().unwrap_or_else(|| panic!("a captured string value does not cast to Str")), Some(b.string.as_ptr())),
+        "from_value_serde" => (v_serde.by_ref().cast::<Str>().unwrap_or_else(|| panic!("a string value that comes out of serde does not cast to Str")), None),
         x => tool_error(&format!("unknown Str constructor {x}")),
     }
 }
@@ -119,7 +119,7 @@ fn str_steps(s: Str<'_>, steps: &[String], rels: &mut Vec<&'static str>, f: &mut
         }
         "via_value" => {
             let v = s.to_value();
-            let c = v.cast::<Str>().unwrap_or_else(|| tool_error("Str -> Value -> Str failed"));
+            let c = v.cast::<Str>().unwrap_or_else(|| panic!("Str -> Value -> Str gives None"));
             rels.push(rel(&c));
             str_steps(c, &steps[1..], rels, f)
         }
